@@ -11,7 +11,7 @@ restore() { git -C /repo checkout -- . ; }
 trap restore EXIT
 git -C /repo apply "$patch" || { echo "patch does not apply"; exit 2; }
 log=$(mktemp)
-timeout 1500 /verif/simcheck run "$prop" "$@" > "$log" 2>&1
+SIMCHECK_EVIDENCE_DIR=$(mktemp -d) timeout 1500 /verif/simcheck run "$prop" "$@" > "$log" 2>&1
 rc=$?
 echo "seeded=$id property=$prop exit=$rc"
 grep "violation class\|^simcheck: $prop\|KNOWN-FINDING\|TROUBLE\|HUNG" "$log" | cut -c1-200 | head -20
